@@ -2,7 +2,7 @@
 from tesim import acct, gen_acct
 
 PROP = "C12"
-PLAN = {"quick": 5000, "thorough": 500000}
+PLAN = {"quick": 10000, "thorough": 500000}
 TIMEOUT = 20
 CHUNK = 250
 RULE = ("seeded swarm of account histories with repeated rebalances under thresholds {0,1e-3,0.02,0.05,0.125,0.5}, "
